@@ -46,7 +46,7 @@ func HarnessC12_doc() {
 	} else if ndChoice(2) == 1 {
 		// the count comes from an upper layer
 		base := c12Body(-1, c)
-		base["$repeat"] = 9
+		base["$repeat"] = 99 // never equal to n (an equal value would be a useless override)
 		layers = []any{base, map[string]any{"$repeat": n}}
 		vCover("repeat.override")
 	} else {
